@@ -80,11 +80,12 @@ def make_signal(rng, nprng, cls=None, L=None):
     dtype = np.dtype((np.complex64 if single else np.complex128) if cplx else (np.float32 if single else np.float64))
     layout = rng.choice(['contiguous', 'strided', 'fortran', 'offset'])
     buf = make_buffer(rng, nprng, (L,) + tuple(ss), dtype, layout)
-    rate = rng.choice([1.0, 2.5, 1e3, 1e6]) * u.Hz * rng.choice([1, 1000])
+    rate = (rng.choice([1.0, 2.5, 1e3, 1e6]) * u.Hz * rng.choice([1, 1000])).to(rng.choice([u.Hz, u.kHz, u.MHz]))
     start = Time('2021-03-04T05:06:07', precision=9) + rng.random() * u.s if rng.random() < 0.7 else None
     kw = dict(sample_rate=rate, start_time=start, meta=rng.choice([None, {'a': [1, 2, {'b': 3}], 'name': 'x'}]))
     if cls != 'Signal':
-        kw['center_freq'] = rng.choice([400.0, 1400.0]) * u.MHz
+        # metadata Quantities in assorted units (an in-place unit conversion of a shared metadata object changes unit and bytes)
+        kw['center_freq'] = (rng.choice([400.0, 1400.0]) * u.MHz).to(rng.choice([u.MHz, u.GHz, u.Hz, u.kHz]))
         kw['freq_align'] = rng.choice(['bottom', 'center', 'top'])
         if cls in ('RadioSignal', 'IntensitySignal', 'FullStokesSignal'):
             kw['chan_bw'] = rate
@@ -154,7 +155,7 @@ def ops_for(rng, nprng, z, pool):
         out.append(('concatenate_freq', lambda: pb.concatenate([z, z], axis='freq'), []))
         DM = pb.DM(rng.choice([0.5, -0.3, 2.0]))
         out.append(('incoherent_dedispersion', lambda: pb.incoherent_dedispersion(z, DM), [DM]))
-        rf = 450 * u.MHz
+        rf = (450 * u.MHz).to(rng.choice([u.MHz, u.GHz, u.Hz]))
         out.append(('incoherent_dedispersion_ref', lambda: pb.incoherent_dedispersion(z, DM, ref_freq=rf), [DM, rf]))
     else:
         out.append(('concatenate_freq_bad', lambda: pb.concatenate([z, z], axis='freq'), []))
@@ -169,6 +170,10 @@ def ops_for(rng, nprng, z, pool):
         ch = DM.chirp_from_signal(z)
         out.append(('coherent_dedispersion_chirp', lambda: pb.coherent_dedispersion(z, DM, chirp=ch), [DM, ch]))
         out.append(('chirp_from_signal', lambda: DM.chirp_from_signal(z, ref_freq=z.max_freq), [DM]))
+        ftab = (np.array([[0.4, 0.5, 0.6], [0.7, 0.8, 0.9]]) * u.GHz).to(rng.choice([u.GHz, u.MHz, u.Hz]))
+        frow, fref = ftab[1], (1.0 * u.GHz).to(rng.choice([u.GHz, u.MHz]))
+        out.append(('time_delay', lambda: DM.time_delay(frow, fref), [DM, frow, fref, ftab]))
+        out.append(('sample_delay', lambda: DM.sample_delay(frow, fref, z.sample_rate), [DM, frow, fref, ftab]))
         out.append(('to_intensity', lambda: z.to_intensity(), []))
         nps = rng.choice([2, 4, L])
         out.append(('stft', lambda: pb.contrib.stft(z, nperseg=nps), []))
